@@ -160,7 +160,10 @@ func runC03(c *core.Ctx) {
 	for _, o := range sub.Obligations() {
 		// ... and the reader's constructor: the decoders call methods on its result without a nil test
 		isCtor := o.Rule == "C20-SHAPE" && strings.HasSuffix(o.Key, "#ctor") && strings.Contains(o.Key, "Reader")
-		if !isCtor && (!strings.Contains(o.Key, "packet.Reader.") || (o.Rule != "C20-ERRCHK" && o.Rule != "C20-STICKY" && o.Rule != "C20-ZERO")) {
+		// ... and the shape rules of the read primitives (an error of the underlying buffer is recorded on every path:
+		// a C-string cut off before its NUL is not a C-string)
+		isReaderShape := o.Rule == "C20-SHAPE" && strings.Contains(o.Key, "packet.Reader.")
+		if !isCtor && !isReaderShape && (!strings.Contains(o.Key, "packet.Reader.") || (o.Rule != "C20-ERRCHK" && o.Rule != "C20-STICKY" && o.Rule != "C20-ZERO")) {
 			continue
 		}
 		o.Key = o.Rule + ":" + o.Key
